@@ -171,6 +171,7 @@ def project(svg, scale=8.0, want_style=False, want_raw=False):
                 doc["nbackdrop"] += 1
                 doc["backdrop"] = e["n"][:4]
                 stack[-1] = "rect#backdrop"
+                doc["order"][-1] = "rect#backdrop"
                 return
         elif local == "circle":
             e["n"] = [num(attrs.get(a, "x")) for a in ("cx", "cy", "r")]
